@@ -18,7 +18,7 @@ def space(tier, seed):
     F = lambda t, i: ('f', t, i)
     A = lambda kind, sp, arg: ('agg', kind, sp, arg)
     doms = {
-        'intstr': ['0', '10', '9'], 'floatstr': ['0.5', '-2.25', '0'], 'int': [0, 10, -3], 'float': [0.5, -2.25, 0.0], 'poison': ['0', '10', 'x'], 'empty': ['7', '', ' '], 'formats': ['1e3', ' 7 ', '+3'], 'tiny': ['1e-11', '3e-11', '-2e-11'], 'formats2': ['.5', '5.', '-007'],
+        'intstr': ['0', '10', '9'], 'floatstr': ['0.5', '-2.25', '0'], 'int': [0, 10, -3], 'float': [0.5, -2.25, 0.0], 'poison': ['0', '10', 'x'], 'empty': ['7', '', ' '], 'formats': ['1e3', ' 7 ', '+3'], 'tiny': ['1e-11', '3e-11', '-2e-11'], 'formats2': ['.5', '5.', '-007'], 'prefixpoison': ['7', '12abc', '3.5.1'], 'prefixpoison2': ['1,5', '10%', '8'],
     }
     spell = ['U', 'l', 'C']
     qs = []
@@ -111,7 +111,7 @@ def tables_for(sp_, slice_, maxrows):
         return [T for T in qcheck.tables_upto(rows, min(maxrows, 3))]
     if slice_ == 'big':
         # integer strings above 2**53: conversion must be exact (not through float)
-        rows = [[g, 'u', v] for v in ('9007199254740993', '9007199254740992', '-9007199254740995', '7')]
+        rows = [[g, 'u', v] for v in ('9007199254740993', '9007199254740992', '-9007199254740995', '7', ' 9007199254740993 ', '+9007199254740995')]      # also with surrounding blanks / a sign: still exact integers
         return list(qcheck.tables_upto(rows, min(maxrows, 3)))
     if slice_ == 'two':
         rows = [[a, b, v] for a in (g, h) for b in ('u', 'v') for v in ('0', '10')]
